@@ -274,7 +274,11 @@ def json_corrupt(doc):
                 return 'mistyped coordinate index'
             if not (0 <= i < sh[0] and 0 <= j < sh[1]):
                 return 'coordinate outside the shape'
-            if isinstance(v, bool) or not isinstance(v, (int, float)):
+            # "wrong type" is relative to the declared element type; only
+            # the unambiguous case is demanded: a non-number where the
+            # document declares a numeric type
+            if doc['matrix_element_type'] in ('int', 'float') and (
+                    isinstance(v, bool) or not isinstance(v, (int, float))):
                 return 'element of the wrong type'
     return None
 
